@@ -306,6 +306,15 @@ func c11(c *Ctx) {
 			die(err)
 		}
 		idx := o.AddCase(Case{Key: "print:file", Desc: g.Desc, Input: map[string]any{"file": g.Desc, "text": string(out)}, Nontrivial: g.NumFuncs > 0})
+		// printing reads the file: the same printer asked twice and a fresh one give the same bytes
+		{
+			pr := printer.NewGoAsm(cfg)
+			o1, _ := pr.Print(g.F)
+			o2, _ := pr.Print(g.F)
+			if string(o1) != string(out) || string(o2) != string(out) {
+				o.Plan.GoViolations = append(o.Plan.GoViolations, GoViolation{Key: "print:not-repeatable", Desc: fmt.Sprintf("case %d: printing the same file again gives different text (fresh printer: %v, same printer a second time: %v)", idx, string(o1) == string(out), string(o2) == string(out)), Replay: map[string]any{"file": g.Desc, "text": string(out), "second": string(o2)}})
+			}
+		}
 		rows = append(rows, "("+pfileCoq(g.F, cfg.GeneratedWarning())+",\n   "+cStr(string(out))+")")
 		nFuncs += g.NumFuncs
 		// every data section is declared once with its size (GLOBL sym, flags, $size), after its DATA lines
